@@ -273,6 +273,101 @@ fn run_op(tx: &mut Transaction, op: &Value) -> Value {
                 Err(e) => json!({ "err": e.to_string() }),
             }
         }
+        "ecies" => {
+            // library BIE1 vs an independent construction from the primitives; reparse; decrypt; single-bit tamper sweep
+            use aes::Aes128;
+            use block_modes::{block_padding::Pkcs7, BlockMode, Cbc};
+            use hmac::{Hmac, Mac, NewMac};
+            use k256::elliptic_curve::sec1::ToEncodedPoint;
+            use sha2::{Digest, Sha256, Sha512};
+            let sk_s = hx(&op["sender"]);
+            let sk_r = hx(&op["recipient"]);
+            let msg = hx(&op["message"]);
+            let exclude = op["exclude"].as_bool().unwrap_or(false);
+            let compressed = op["sender_compressed"].as_bool().unwrap_or(true);
+            let sender = PrivateKey::from_bytes(&sk_s).unwrap().compress_public_key(compressed);
+            let recipient = PrivateKey::from_bytes(&sk_r).unwrap();
+            let rpub = PublicKey::from_private_key(&recipient);
+            let spub = PublicKey::from_private_key(&sender);
+            let ct = match ECIES::encrypt(&msg, &sender, &rpub, exclude) {
+                Ok(c) => c,
+                Err(e) => return json!({ "err": e.to_string() }),
+            };
+            let lib = ct.to_bytes();
+            // reference
+            let s_scalar = k256::SecretKey::from_be_bytes(&sk_s).unwrap();
+            let r_secret = k256::SecretKey::from_be_bytes(&sk_r).unwrap();
+            let r_point = r_secret.public_key().to_projective();
+            let shared = (r_point * *s_scalar.to_nonzero_scalar()).to_affine().to_encoded_point(true);
+            let h = Sha512::digest(shared.as_bytes());
+            let (iv, ke, km) = (&h[0..16], &h[16..32], &h[32..64]);
+            let body = Cbc::<Aes128, Pkcs7>::new_from_slices(ke, iv).unwrap().encrypt_vec(&msg);
+            let mut reference = b"BIE1".to_vec();
+            if !exclude {
+                reference.extend_from_slice(s_scalar.public_key().to_encoded_point(true).as_bytes());
+            }
+            reference.extend_from_slice(&body);
+            let mut mac = Hmac::<Sha256>::new_from_slice(km).unwrap();
+            mac.update(&reference);
+            let tag = mac.finalize().into_bytes();
+            reference.extend_from_slice(&tag);
+            // reparse + decrypt
+            let reparsed = ECIESCiphertext::from_bytes(&lib, !exclude);
+            let (reparse_equal, roundtrip) = match &reparsed {
+                Ok(c2) => (c2.to_bytes() == lib, matches!(ECIES::decrypt(c2, &recipient, &spub), Ok(ref m) if *m == msg)),
+                Err(_) => (false, false),
+            };
+            let direct = matches!(ECIES::decrypt(&ct, &recipient, &spub), Ok(ref m) if *m == msg);
+            // tamper: flip one bit of every byte after the magic (the key prefix byte 02<->03 stays a valid point)
+            let mut accepted = vec![];
+            for pos in 4..lib.len() {
+                let mut t = lib.clone();
+                t[pos] ^= 1;
+                let r = catch_unwind(AssertUnwindSafe(|| match ECIESCiphertext::from_bytes(&t, !exclude) {
+                    Ok(c3) => ECIES::decrypt(&c3, &recipient, &spub).is_ok(),
+                    Err(_) => false,
+                }));
+                if !matches!(r, Ok(false)) {
+                    accepted.push(pos);
+                }
+            }
+            let other = PrivateKey::from_bytes(&[7u8; 32]).unwrap();
+            let wrong_key = ECIES::decrypt(&ct, &other, &spub).is_ok();
+            json!({ "ok": { "lib": hex::encode(&lib), "matches_reference": lib == reference, "reparse_equal": reparse_equal, "roundtrip": roundtrip && direct, "tamper_accepted": accepted, "wrong_key_accepted": wrong_key } })
+        }
+        "aes_check" => {
+            use aes::cipher::{NewCipher, StreamCipher};
+            use aes::{Aes128, Aes128Ctr, Aes256, Aes256Ctr};
+            use block_modes::{block_padding::Pkcs7, BlockMode, Cbc};
+            let (key, iv, msg) = (hx(&op["key"]), hx(&op["iv"]), hx(&op["message"]));
+            let (algo, reference) = match op["algo"].as_str().unwrap() {
+                "AES128_CBC" => (AESAlgorithms::AES128_CBC, Cbc::<Aes128, Pkcs7>::new_from_slices(&key, &iv).unwrap().encrypt_vec(&msg)),
+                "AES256_CBC" => (AESAlgorithms::AES256_CBC, Cbc::<Aes256, Pkcs7>::new_from_slices(&key, &iv).unwrap().encrypt_vec(&msg)),
+                "AES128_CTR" => {
+                    let mut d = msg.clone();
+                    Aes128Ctr::new_from_slices(&key, &iv).unwrap().apply_keystream(&mut d);
+                    (AESAlgorithms::AES128_CTR, d)
+                }
+                _ => {
+                    let mut d = msg.clone();
+                    Aes256Ctr::new_from_slices(&key, &iv).unwrap().apply_keystream(&mut d);
+                    (AESAlgorithms::AES256_CTR, d)
+                }
+            };
+            let algo2 = match op["algo"].as_str().unwrap() {
+                "AES128_CBC" => AESAlgorithms::AES128_CBC,
+                "AES256_CBC" => AESAlgorithms::AES256_CBC,
+                "AES128_CTR" => AESAlgorithms::AES128_CTR,
+                _ => AESAlgorithms::AES256_CTR,
+            };
+            match AES::encrypt(&key, &iv, &msg, algo) {
+                Ok(ct) => {
+                    let back = AES::decrypt(&key, &iv, &ct, algo2);
+                    json!({ "ok": { "matches_reference": ct == reference, "roundtrip": matches!(back, Ok(ref m) if *m == msg) } })
+                }
+                Err(e) => json!({ "err": e.to_string() }),
+            }
+        }
         "hash" => {
             let data = hx(&op["input"]);
             let key = op.get("key").map(|k| hx(k)).unwrap_or_default();
